@@ -139,13 +139,14 @@ def _from_parts_contracts(phase, mod, clsname, parts_attr, kind, shape, exe_meth
                    'runs nothing': lambda trace: trace == [],
                }, raises_only=())
 
-    M.contract(q + '.symbol_usages', params=dict(self=this), ghosts=g,
+    # (inline: call sites -- the per-instruction harnesses of section 2 -- see the bodies)
+    M.contract(q + '.symbol_usages', params=dict(self=this), ghosts=g, inline=True,
                ensures={'the symbol usages of the parts; runs nothing': lambda self, parts_attr, result, trace:
                result is getattr(self, parts_attr).symbol_usages and trace == []},
                raises_only=())
 
     M.contract(q + '.validate_pre_sds', params=dict(self=this, environment=Iface(InstructionEnvI)), ghosts=g,
-               returns=SVH,
+               returns=SVH, inline=True,
                ensures={
                    'only the pre-sds part of the validator of the parts, once, in the environment given; no main step':
                        lambda self, environment, parts_attr, trace:
@@ -164,7 +165,7 @@ def _from_parts_contracts(phase, mod, clsname, parts_attr, kind, shape, exe_meth
 
     if phase != 'cleanup':
         M.contract(q + '.validate_post_setup', params=dict(self=this, environment=Iface(InstructionEnvI)),
-                   returns=SVH,
+                   returns=SVH, inline=True,
                    ensures={'success; runs nothing': lambda result, trace: svh_kind(result) is None and trace == []},
                    raises_only=())
 
@@ -178,7 +179,7 @@ def _from_parts_contracts(phase, mod, clsname, parts_attr, kind, shape, exe_meth
     if phase == 'setup':
         del g_main['settings_builder']
 
-    M.contract(q + '.main', params=main_params, ghosts=g_main, returns=shape,
+    M.contract(q + '.main', params=main_params, ghosts=g_main, returns=shape, inline=True,
                ensures={
                    'post-sds validation of the parts first; the main step of the executor iff it has nothing to '
                    'say -- once, with the arguments given; nothing else':
@@ -499,7 +500,7 @@ M.contract(Q_IOP + '.main',
 # ----- the sequence of assertion parts: validated iff every part is
 
 M.contract('exactly_lib.symbol.sdv_structure:references_from_objects_with_symbol_references', trusted=True,
-           params=dict(objects=Any_), returns=Any_)
+           params=dict(objects=Any_), returns=FixedList(Any_, Any_))
 M.trust('sdv_structure.references_from_objects_with_symbol_references concatenates the `references` of the objects '
         '(which references an instruction reports: C08)')
 
@@ -673,3 +674,300 @@ M.contract(P_IOM + ':Instruction.main',
                (result.status is (PFH_ENUM.PASS if outcome_event(trace, 'matcher-apply')[1].value else PFH_ENUM.FAIL)),
            },
            raises={ArbitraryException: {}}, raises_only=())
+
+
+# ====================================================================================== 2: concrete instructions
+# For each instruction: the instruction AS ITS PARSER BUILDS IT (real constructor of the embryo, real
+# `instruction_parts_from_embryo`, real phase instruction: what `PartsParserFromEmbryoParser.parse` and
+# `Parser.parse` do with the embryo, section 1b) is asked to validate before the sandbox exists -- a small harness
+# that calls the real `validate_pre_sds`, as ENGINE.md section 9 describes for code that has no function of its own.
+# Claim per instruction: validate_pre_sds asks the pre-sds validator of EVERY argument (as resolved with the symbols
+# of the environment, on its home directories), in order, none dropped; it reports VALIDATION_ERROR iff one of them
+# reports; and it does nothing else: no main step, no ghost file-system / process event (`quiet`).
+# The arguments (PathSdv, FileMakerSdv, IntegerSdv, StringSourceSdv, ...) are opaque: `resolve(symbols)` gives a DDV
+# whose `validator` is a DdvValidator (ValidatorI).
+import os as _os
+from pyvc import fsmodel as _fsmodel      # noqa: F401  (registers the ghost file system: its events must NOT occur)
+from exactly_lib.impls.instructions.multi_phase import new_file, new_dir, copy as copy_instr, change_dir
+from exactly_lib.impls.instructions.multi_phase.timeout import impl as timeout_impl
+from exactly_lib.impls.instructions.multi_phase.environ import impl as env_impl
+from exactly_lib.impls.instructions.setup import stdin as stdin_instr
+from exactly_lib.impls.instructions.assert_ import existence_of_file
+from exactly_lib.type_val_deps.dep_variants.ddv import ddv_validation
+
+P_SVN = c03.P_SVN
+P_I = 'exactly_lib.impls.instructions.'
+HARNESS = 'contracts.C03b_instructions:'
+
+FS_EVENTS = ('mkdir', 'open', 'write', 'close', 'chmod', 'chdir', 'rmtree', 'mkdtemp', 'resolve', 'exists?', 'stat')
+
+
+def quiet(trace):
+    """no main step and no effect on / look at the ghost file system and process state"""
+    return not [e for e in trace if e[0] in MAIN_EVENTS or e[0] in FS_EVENTS]
+
+
+# ----- call sites see the body (C03_validation proves these generically; its clauses are about the callee's trace)
+M.contract(P_SVN + ':SdvValidatorFromDdvValidator.validate_pre_sds_if_applicable',
+           params=dict(self=Inst(sdv_validation.SdvValidatorFromDdvValidator,
+                                 _get_value_validator=Iface(c03.GetValidatorI), _hds=Const(None)),
+                       environment=Iface(PathEnvI)), returns=Opt(Any_), inline=True,
+           ensures={'(inline) the verdict of the pre-sds part of the validator of the resolved value':
+                    lambda result, trace: c03._outcome(trace, 'pre') == ('returned', result)},
+           raises={ArbitraryException: {}}, raises_only=())
+
+SDV_PAIR = Inst(sdv_validation.AndSdvValidator, validators=FixedList(Iface(ValidatorI), Iface(ValidatorI)))
+
+for _method, _step in (('validate_pre_sds_if_applicable', 'pre'), ('validate_post_sds_if_applicable', 'post')):
+    M.contract('%s:AndSdvValidator.%s' % (P_SVN, _method), params=dict(self=SDV_PAIR, environment=Any_),
+               ghosts=dict(step=Const(_step)), returns=Opt(Any_), inline=True,
+               ensures={
+                   'two components: the first, then -- iff it has nothing to say -- the second; that part only':
+                       lambda self, environment, step, trace: steps(trace) == _pair_steps(self, step, environment, trace),
+                   'two components: the first error is the result': lambda result, step, trace:
+                   result is [e for e in trace if e[0] == 'validate-%s:returned' % step][-1][2],
+               },
+               raises={ArbitraryException: {}}, raises_only=())
+
+
+# ----- the arguments of instructions
+
+class DdvWithValidatorI(Interface):
+    """a DDV (of a path check, file maker, string source, file matcher ...) as far as validation is concerned"""
+    attrs = {'validator': Iface(ValidatorI)}
+
+
+class SdvOfDdvWithValidatorI(Interface):
+    attrs = {'references': FixedList(Any_)}
+    methods = {'resolve': Method(returns=Iface(DdvWithValidatorI), may_raise=(_mk_arbitrary,), event='resolve-arg')}
+
+
+class DdvWithValidatorMethodI(Interface):
+    """IntegerDdv / environ ModifierDdv: `validator()` is a method"""
+    methods = {'validator': Method(returns=Iface(ValidatorI), event='get-validator-of-ddv')}
+
+
+class SdvOfDdvWithValidatorMethodI(Interface):
+    attrs = {'references': FixedList(Any_)}
+    methods = {'resolve': Method(returns=Iface(DdvWithValidatorMethodI), may_raise=(_mk_arbitrary,),
+                                 event='resolve-arg')}
+
+
+class PathSuffixI(Interface):
+    methods = {'value': Method(returns=Str)}
+
+
+class PurePathI(Interface):
+    attrs = {'name': Str}
+
+
+class PathDdvOfDstI(Interface):
+    methods = {'path_suffix': Method(returns=Iface(PathSuffixI)), 'path_suffix_path': Method(returns=Iface(PurePathI)),
+               'describer': Method(returns=Any_)}
+
+
+class PathSdvI(Interface):
+    """a PathSdv whose value is not validated before the sandbox (a path to create / to change to)"""
+    attrs = {'references': FixedList(Any_)}
+    methods = {'resolve': Method(returns=Iface(PathDdvOfDstI), may_raise=(_mk_arbitrary,), event='resolve-path')}
+
+
+class PreSdsInstructionEnvI(Interface):
+    """InstructionEnvironmentForPreSdsStep: its path-resolving environment holds ITS symbols and home directories"""
+    attrs = {'symbols': Any_, 'hds': Any_}
+    computed = {'path_resolving_environment': lambda interp, obj: _mk_path_env(interp, obj)}
+
+
+def _mk_path_env(interp, env):
+    from exactly_lib.test_case.path_resolving_env import PathResolvingEnvironmentPreSds
+    return PathResolvingEnvironmentPreSds(interp.getattr(env, 'hds'), interp.getattr(env, 'symbols'))
+
+
+def resolved_arg(trace, sdv):
+    """the DDV that `sdv.resolve(symbols)` returned"""
+    k = [i for i in range(len(trace)) if trace[i][0] in ('resolve-arg', 'resolve-path') and trace[i][1] is sdv][0]
+    return trace[k + 1][2]
+
+
+def resolutions(trace):
+    return [(e[0], e[1], e[2]) for e in trace if e[0] in ('resolve-arg', 'resolve-path')]
+
+
+def validated(trace):
+    """the pre-sds validations done: (validator, arguments)"""
+    return [(e[1], e[2]) for e in trace if e[0] == 'validate-pre']
+
+
+def no_post_sds_validation(trace):
+    return not [e for e in trace if e[0] == 'validate-post']
+
+
+def verdict_of(result, trace, names=('validate-pre', 'validate-dst-name')):
+    """VALIDATION_ERROR iff the last validator asked reports an error -- with its message; success otherwise
+    (conjunctions stop at the first error: the last one asked is the only one that can have reported)"""
+    returned = [e for e in trace if e[0] in [n + ':returned' for n in names]]
+    msg = returned[-1][2] if returned else None
+    return svh_kind(result) == (None if msg is None else 'VALIDATION_ERROR') and result.failure_message is msg
+
+
+def _setup_instruction_of(embryo_):
+    """what PartsParserFromEmbryoParser.parse + setup Parser.parse make of the embryo"""
+    return setup_fp.SetupPhaseInstructionFromParts(
+        ipu.instruction_parts_from_embryo(embryo_, ipu.MainStepResultTranslatorForTextRendererAsHardError()))
+
+
+# ----- file PATH [= CONTENTS]   (new_file)
+
+M.model(_os.path.split, lambda interp, args, kwargs: (Str.make(interp, 'split.head'), Str.make(interp, 'split.tail')))
+M.trust('os.path.split(str) returns a pair of strings and has no effect')
+
+M.contract('exactly_lib.impls.types.path.path_err_msgs:line_header__ddv', trusted=True,
+           params=dict(header=Any_, path=Any_), returns=Any_)
+M.trust('path_err_msgs.line_header__ddv builds a message object (rendering is outside the property)')
+
+M.contract(P_I + 'multi_phase.new_file:_DstFileNameSdvValidator.validate_pre_sds_if_applicable',
+           params=dict(self=Inst(new_file._DstFileNameSdvValidator, _path_to_create=Iface(PathSdvI)),
+                       environment=Iface(PathEnvI)),
+           returns=Opt(Any_), event='validate-dst-name',
+           ensures={
+               'looks at the name of the path as resolved with the symbols of the environment; nothing else':
+                   lambda self, environment, trace:
+                   resolutions(trace) == [('resolve-path', self._path_to_create, (environment.symbols,))]
+                   and quiet(trace) and steps(trace) == [],
+               'an empty name is an error': lambda result, trace: True,
+           },
+           raises={ArbitraryException: {'ensures': lambda exc, trace: outcome_event(trace, 'resolve-path') == ('raised', exc)}},
+           raises_only=())
+
+
+def harness_new_file_validate_pre_sds(path_to_create, file_maker, environment):
+    """`file PATH = CONTENTS` (new_file._TheInstructionEmbryo in [setup]) validates before the sandbox exists"""
+    return _setup_instruction_of(new_file._TheInstructionEmbryo(path_to_create, file_maker)).validate_pre_sds(environment)
+
+
+M.contract(HARNESS + 'harness_new_file_validate_pre_sds',
+           params=dict(path_to_create=Iface(PathSdvI), file_maker=Iface(SdvOfDdvWithValidatorI),
+                       environment=Iface(PreSdsInstructionEnvI)), returns=SVH,
+           ensures={
+               'the name of the file to create is validated, then -- iff that has nothing to say -- the file maker '
+               '(contents) as resolved with the symbols of the environment, on its home directories':
+                   lambda path_to_create, file_maker, environment, trace:
+                   [e[0] for e in trace if e[0] == 'validate-dst-name'] == ['validate-dst-name']
+                   and [e for e in trace if e[0] == 'validate-dst-name'][0][1]['self']._path_to_create is path_to_create
+                   and [e for e in trace if e[0] == 'validate-dst-name'][0][1]['environment'].symbols
+                   is environment.symbols
+                   and (validated(trace) == [] and resolutions(trace) == []
+                        if outcome_event(trace, 'validate-dst-name')[1] is not None else
+                        resolutions(trace) == [('resolve-arg', file_maker, (environment.symbols,))]
+                        and validated(trace) == [(resolved_arg(trace, file_maker).validator, (environment.hds,))]),
+               'VALIDATION_ERROR iff one of them reports an error, with its message': lambda result, trace:
+               verdict_of(result, trace),
+               'nothing else: no main step, no effect': lambda trace: quiet(trace) and no_post_sds_validation(trace),
+           },
+           raises={ArbitraryException: {}}, raises_only=())
+
+
+class TokenPathParserI(Interface):
+    methods = {'parse_from_token_parser': Method(returns=Iface(PathSdvI), may_raise=(_mk_arbitrary,), event='parse-path')}
+
+
+class TokenParserOfI(Interface):
+    methods = {'parse': Method(returns=Iface(SdvOfDdvWithValidatorI), may_raise=(_mk_arbitrary,), event='parse-arg')}
+
+
+class TokensI(Interface):
+    attrs = {'is_at_eol': Bool}
+    methods = {'report_superfluous_arguments_if_not_at_eol': Method(may_raise=(_mk_arbitrary,), event='at-eol')}
+
+
+for _q, _cls, _emb, _path_attr in (
+        ('multi_phase.new_file:EmbryoParser', new_file.EmbryoParser, new_file._TheInstructionEmbryo, '_path_to_create'),
+        ('multi_phase.new_dir:EmbryoParser', new_dir.EmbryoParser, new_dir.TheInstructionEmbryo, '_dir_path_sdv')):
+    M.contract(P_I + _q + '._parse_from_tokens',
+               params={'self': Inst(_cls, _path_parser=Iface(TokenPathParserI), _file_maker_parser=Iface(TokenParserOfI)),
+                       ('tokens' if _emb is new_file._TheInstructionEmbryo else 'token_parser'): Iface(TokensI)},
+               ghosts=dict(emb=Const(_emb), path_attr=Const(_path_attr)),
+               ensures={'the embryo of the path and the file maker that were parsed -- both': lambda result, emb, path_attr, trace:
+               type(result) is emb and getattr(result, path_attr) is outcome_event(trace, 'parse-path')[1]
+               and result._file_maker is outcome_event(trace, 'parse-arg')[1],
+                        'superfluous arguments are reported; nothing is validated or run': lambda trace:
+                        len([e for e in trace if e[0] == 'at-eol']) == 1 and steps(trace) == [] and quiet(trace)},
+               raises={ArbitraryException: {}}, raises_only=())
+
+
+# ----- dir PATH [= CONTENTS]   (new_dir)
+
+def harness_new_dir_validate_pre_sds(dir_path_sdv, file_maker, environment):
+    """`dir PATH [= CONTENTS]` (new_dir.TheInstructionEmbryo in [setup]) validates before the sandbox exists"""
+    return _setup_instruction_of(new_dir.TheInstructionEmbryo(dir_path_sdv, file_maker)).validate_pre_sds(environment)
+
+
+def _validates_exactly(arg, environment, trace):
+    return resolutions(trace) == [('resolve-arg', arg, (environment.symbols,))] \
+        and validated(trace) == [(resolved_arg(trace, arg).validator, (environment.hds,))]
+
+
+_ONE_ARG = {
+    'the argument is validated: as resolved with the symbols of the environment, on its home directories':
+        lambda arg, environment, trace: _validates_exactly(arg, environment, trace),
+    'VALIDATION_ERROR iff it reports an error, with its message': lambda result, trace: verdict_of(result, trace),
+    'nothing else: no main step, no effect': lambda trace: quiet(trace) and no_post_sds_validation(trace),
+}
+
+M.contract(HARNESS + 'harness_new_dir_validate_pre_sds',
+           params=dict(dir_path_sdv=Iface(PathSdvI), file_maker=Iface(SdvOfDdvWithValidatorI),
+                       environment=Iface(PreSdsInstructionEnvI)), returns=SVH,
+           setup=lambda interp, args, ghosts: {'arg': args['file_maker']}, ghosts=dict(arg=Any_),
+           ensures=dict(_ONE_ARG), raises={ArbitraryException: {}}, raises_only=())
+
+
+# ----- timeout = INTEGER / env VAR = VALUE: the validator method of the resolved value
+
+def _validates_exactly_m(arg, environment, trace):
+    return resolutions(trace) == [('resolve-arg', arg, (environment.symbols,))] \
+        and [(e[0], e[1]) for e in trace if e[0] == 'get-validator-of-ddv'] \
+        == [('get-validator-of-ddv', resolved_arg(trace, arg))] \
+        and validated(trace) == [(outcome_event(trace, 'get-validator-of-ddv')[1], (environment.hds,))]
+
+
+_ONE_ARG_M = dict(_ONE_ARG)
+del _ONE_ARG_M['the argument is validated: as resolved with the symbols of the environment, on its home directories']
+_ONE_ARG_M = dict({'the argument is validated: as resolved with the symbols of the environment, on its home directories':
+                   lambda arg, environment, trace: _validates_exactly_m(arg, environment, trace)}, **_ONE_ARG_M)
+
+
+def harness_timeout_validate_pre_sds(value, environment):
+    """`timeout = INTEGER` (timeout.impl.TheInstructionEmbryo in [setup]) validates before the sandbox exists"""
+    return _setup_instruction_of(timeout_impl.TheInstructionEmbryo(value)).validate_pre_sds(environment)
+
+
+M.contract(HARNESS + 'harness_timeout_validate_pre_sds',
+           params=dict(value=Iface(SdvOfDdvWithValidatorMethodI), environment=Iface(PreSdsInstructionEnvI)),
+           returns=SVH, setup=lambda interp, args, ghosts: {'arg': args['value']}, ghosts=dict(arg=Any_),
+           ensures=dict(_ONE_ARG_M), raises={ArbitraryException: {}}, raises_only=())
+
+
+def harness_env_validate_pre_sds(phases, modifier, environment):
+    """`env VAR = VALUE` / `env unset VAR` (environ.impl.TheInstructionEmbryo in [setup])"""
+    return _setup_instruction_of(env_impl.TheInstructionEmbryo(phases, modifier)).validate_pre_sds(environment)
+
+
+M.contract(HARNESS + 'harness_env_validate_pre_sds',
+           params=dict(phases=Any_, modifier=Iface(SdvOfDdvWithValidatorMethodI),
+                       environment=Iface(PreSdsInstructionEnvI)),
+           returns=SVH, setup=lambda interp, args, ghosts: {'arg': args['modifier']}, ghosts=dict(arg=Any_),
+           ensures=dict(_ONE_ARG_M), raises={ArbitraryException: {}}, raises_only=())
+
+
+# ----- cd PATH: nothing can be validated before the sandbox exists (the directory lies in it); nothing is done
+
+def harness_change_dir_validate_pre_sds(destination, environment):
+    """`cd PATH` (change_dir.InstructionEmbryo in [setup])"""
+    return _setup_instruction_of(change_dir.InstructionEmbryo(destination)).validate_pre_sds(environment)
+
+
+M.contract(HARNESS + 'harness_change_dir_validate_pre_sds',
+           params=dict(destination=Iface(PathSdvI), environment=Iface(PreSdsInstructionEnvI)), returns=SVH,
+           ensures={'success; in particular the current directory is not changed': lambda result, trace:
+           svh_kind(result) is None and trace == []},
+           raises_only=())
